@@ -7,6 +7,7 @@ import (
 	"bytes"
 	"context"
 	"fmt"
+	"math"
 	"strings"
 	"testing/fstest"
 	"time"
@@ -138,6 +139,11 @@ func c11Data() []any {
 	return []any{nil, true, 0, 1, int8(3), uint64(9), 2.5, "", "str", []any{}, []any{1, "a", nil}, []int{1, 2}, [2]int{3, 4}, map[string]any{}, map[string]any{"y": map[string]any{"z": 1}}, map[string]string{"y": "s"},
 		map[int]string{1: "x"}, map[string]int{"y": 1}, S1{Name: "n", secret: "s", hidden: 1, Items: []int{1}}, &S1{Name: "p"}, np, S2{X: 1}, []S2{{1, "a"}}, MyStr("m"), MyInt(2), func() {}, make(chan int), struct{ a int }{1}, time.Unix(0, 0), []byte("bytes"), [][]any{{1}},
 		S5{}, S5{Base: &Base{Created: "c", ID: 2}, Title: "t"}, &S5{}, []S5{{}, {Base: &Base{Created: "d"}}}, S4{Base: Base{Created: "e"}, Title: "t4"}, map[string]any{"n5": S5{}, "title": "T"}, []*S5{nil, {}},
+		// maps whose keys are interface values of DIFFERENT kinds (what YAML gives for `{404: a, default: b}`), of several numeric kinds, keyed
+		// by floats (NaN included), bools, structs, pointers, arrays
+		map[any]any{1: "a", "two": "b"}, map[any]any{404: "nf", 500: "err", "default": "oops"}, map[any]any{1: "i", 2.5: "f", uint(3): "u", int8(4): "i8"}, map[any]any{true: "t", "x": 1, nil: "n"},
+		map[float64]string{2.5: "a", math.NaN(): "nan", math.Inf(-1): "-inf"}, map[bool]int{true: 1, false: 0}, map[S2]string{{1, "a"}: "s1", {0, ""}: "s0"}, map[*S2]int{nil: 0, {X: 1}: 1}, map[[2]int]string{{1, 2}: "a", {0, 9}: "b"},
+		map[any]any{S2{1, "a"}: 1, "s": 2, 3: []any{nil}}, map[uint8]any{200: nil, 3: map[any]any{1: 1, "1": 2}}, map[MyStr]int{"m": 1, "a": 2}, map[MyInt]string{2: "two", 1: "one"},
 		// strings that are nothing but the characters the attribute / style / class / pipe code strips, splits at or looks for
 		"\"", "'", " ' ", "\"\"", "''", ":", ";", ",", "{", "}", "{}", "{{", "}}", "|", " ", "\n", "-", ".", "[", "]", "(", ")", "a:", ":a", ";;", "\"a", "a'", "\\", "%", "%s", "\x00"}
 }
